@@ -49,7 +49,7 @@ func coreSpaces() []gen.Space {
 }
 
 func c01(r *mon.Run) {
-	r.Rule = "exhaustive: every core-fragment tree (identifiers unquoted/quoted incl. \"\" and non-ASCII, sub-expressions, indices 0 1 -1 2 -3, literals, raw string, @, parentheses, pipe, multi-select list/hash standalone and after a dot) with <= 2 operator nodes x a 40-document universe (every key holds each JSON type at depth 0-2), both API entry points; " +
+	r.Rule = "exhaustive: every core-fragment tree (identifiers unquoted/quoted incl. \"\" and non-ASCII, sub-expressions, indices 0 1 -1 2 -3, literals, raw string, @, parentheses, pipe, multi-select list/hash standalone and after a dot) with <= 2 operator nodes x a 42-document universe (every key holds each JSON type at depth 0-2), both API entry points; " +
 		"thorough: additionally every tree with 3 operator nodes on 2 documents each; plus seeded random deep core trees on random typed documents; plus 98 awkward member names (syntax look-alikes, quotes and backslash runs, dotted names next to the nested path they would spell) as quoted identifiers in 8 positions; plus 10 key names x 15 near-miss neighbours (first letter's case, all upper / lower, prefix, suffix, space, underscore, empty) present instead of or next to the key, in 7 expression forms; plus every index from -(len+3) to len+3 on arrays of 0...9, 15...17, 63...65, 255...257 elements in five positions; plus paths of 1...400 steps (2000 in thorough) in six shapes (distinct keys, fields and indices alternating, self-similar a.a.a… and [1][1][1]…, cut by a pipe, inside a multi-select) on documents where skipping or repeating one step changes the answer. node-kind pairs: 49 representatives of every node kind in each of the 38 single-hole grammar contexts and in every context of every context, on 3 documents (the trees this property owns: no function, operator or projection). A fixed quarter of all cases is preceded by a failing or odd call (process-wide state must not leak). Oracle: ref.RefSet (independent evaluator, calibrated on the 768 applicable compliance cases). " +
 		"Non-trivial = distinct (expression, document) whose expected result is non-null; 'null because of a miss' is counted separately."
 	r.Exhaustive = true
